@@ -1361,7 +1361,14 @@ func main() {
 	case "race":
 		w := gen.NewWriter(f.Out)
 		defer w.Close()
-		concAndE2E(w, gen.NewRand(f.Seed), 6, 6, "-race")
+		// the race detector slows everything 5-20x: few, small runs
+		r := gen.NewRand(f.Seed)
+		for i := 0; i < 3; i++ {
+			emitConc(w, concCfg{Keys: r.Range(2, 4), Gens: r.Range(15, 40), Readers: r.Range(2, 3), Seed: r.U64()}, "conc-race")
+		}
+		for i := 0; i < 2; i++ {
+			emitE2E(w, e2eCfg{Repos: r.Range(2, 4), Editors: r.Range(1, 2), Edits: r.Range(8, 16), Searchers: 2, Seed: r.U64()}, "e2e-race")
+		}
 	case "child":
 		childMain(f)
 	default:
